@@ -185,8 +185,23 @@ def gen_case(rng, direction, opts=None):
         if opts.get("leftover", True) and r2.chance(1, 4):
             for p in sorted(src):
                 if r2.chance(1, 2) and (p + STAGING) not in src and (p + STAGING) not in dst and len(p.split("/")[-1].encode()) < 240:
-                    left[p + STAGING] = (r2.bytes(len(src[p][0]) + r2.range(1, 9000)), (1_650_000_000, 0))
+                    n = len(src[p][0])
+                    # longer than, exactly as long as, or shorter than the file that will be staged there
+                    ln = r2.pick([n + r2.range(1, 9000), n + 1, n, n, max(0, n - 1), n // 2])
+                    left[p + STAGING] = (r2.bytes(ln), (1_650_000_000, 0))
         case["leftover_staging"] = left
+        # things that are not regular files and that a lived-in tree contains anyway: links that do not
+        # resolve, empty directories, FIFOs.  They are nobody's to transfer or delete.
+        extras = []
+        if opts.get("extras", True) and r2.chance(1, 4):
+            dirs = sorted({os.path.dirname(p) for p in list(src) + list(dst)})
+            for i in range(r2.range(1, 3)):
+                side = r2.pick(["dst", "dst", "src"])
+                d = r2.pick(dirs) if dirs else ""
+                if side == "dst" and any(st == "clash" for st in states.values()):
+                    d = ""
+                extras.append((side, os.path.join(d, "zz.extra-%d" % i), r2.pick(["dangling", "dangling", "loop", "emptydir", "fifo"])))
+        case["extras"] = extras
         case["dst_symlink"] = r2.chance(1, 8)
         case["src_symlink"] = r2.chance(1, 8)
     return case
@@ -228,6 +243,20 @@ class OneWay:
             self._put(self.dst, p, data, mt)
         for p, (data, mt) in left.items():
             self._put(self.dst, p, data, mt)
+        for side, p, kind in case.get("extras") or []:
+            full = os.path.join(self.src if side == "src" else self.dst, p)
+            try:
+                os.makedirs(os.path.dirname(full), exist_ok=True)
+                if kind == "dangling":
+                    os.symlink("no-such-target", full)
+                elif kind == "loop":
+                    os.symlink(os.path.basename(full), full)
+                elif kind == "emptydir":
+                    os.makedirs(full)
+                else:
+                    os.mkfifo(full)
+            except OSError:
+                pass
         for side, p in case.get("readonly") or []:
             try:
                 os.chmod(os.path.join(self.src if side == "src" else self.dst, p), 0o444)
@@ -785,6 +814,9 @@ def c09_scenarios(rng=None):
         S["long-delete-list-prefix-names-" + tag] = dict(src=dict(keep, **{"new": (b"n", new)}), dst=dict(keep, **stale), delete=True)
     # write-protected destination files: replaced by rename and deleted like any other, never unlinked first
     S["readonly-destination-files"] = dict(src={"locked.db": (k300[:70000], new), "d/ro": (b"new-ro", new), "same": (b"same", old)}, dst={"locked.db": (b"old locked content", old), "d/ro": (b"old-ro", old), "same": (b"same", old), "stale-ro": (b"s", old)}, delete=True, readonly=[("dst", "locked.db"), ("dst", "d/ro"), ("dst", "same"), ("dst", "stale-ro")])
+    # after the crash the user edits the source (same sizes, new bytes, newer mtimes) and only then runs the
+    # command again: what the killed run left behind must not leak into the result
+    S["source-edited-before-rerun"] = dict(src={"big": (k300, new), "sub/index.bin": (k700[:200000], new), "tiny": (b"t", new)}, dst={"big": (k300[::-1], old), "bystander": (b"keep me", old)}, delete=False, edit_before_rerun=True)
     S["700K-over-older-delete"] = dict(src={"big7": (k700, new), "k": (b"k", new)}, dst={"big7": (k700[:1000], old), "stale/x": (b"s", old)}, delete=True)
     return S
 
@@ -833,6 +865,25 @@ def _c09_worker(args):
         ref = content_map(snapshot(ow.dst))
         old = content_map(dst0)
         srcids = content_map(src0)
+        edit = name in scen and scen[name].get("edit_before_rerun")
+
+        def edit_source():
+            for pth in sorted(transfer):
+                full = os.path.join(ow.src, pth)
+                data = open(full, "rb").read()
+                st = os.stat(full)
+                write_file(full, bytes(b ^ 0x5A for b in data), (st.st_mtime_ns // 1_000_000_000 + 100, 0))
+
+        if edit:
+            restore()
+            edit_source()
+            r2 = run(ow.argv(), ow.env(), cwd=ow.home, timeout=120)
+            if r2.code != 0:
+                cnt("scenarios_skipped_reference_failed")
+                ow.destroy()
+                rmtree(save)
+                continue
+            ref = content_map(snapshot(ow.dst))
         cnt("scenarios[%s]" % direction)
         k = 0
         states = set()
@@ -896,6 +947,9 @@ def _c09_worker(args):
                 inside += 1
             states.add(tuple(sorted(content_map(snapshot(ow.dst), staging=True).items())))
             # re-run the same command: must complete and equal the uninterrupted result
+            if edit:
+                edit_source()
+                cnt("reruns_after_source_edit")
             ok = False
             for attempt in range(2):
                 rr = run(ow.argv(), ow.env(), cwd=ow.home, timeout=120)
